@@ -35,10 +35,12 @@ def tp_obs(eng, part, eff=None):
     P = part.column_proportions.view(np.ndarray)
     nr, nc = P.shape
     if eff is None:
-        n = part.columns_base      # unweighted column base, one value per column
-        nb = [n[j] for j in range(nc)]
-    else:
-        nb = eff
+        n = part.columns_base      # unweighted column base: one value per column, or per cell when the rows are array items
+        eff = (lambda i, j: n[i, j]) if getattr(n, "ndim", 1) == 2 else (lambda i, j: n[j])
+    elif not callable(eff):
+        _e = eff
+        eff = lambda i, j: _e[j]      # noqa: E731
+    nb = eff
     diff_c = set(int(j) for j in part.diff_column_idxs)
     diff_r = set(int(i) for i in part.diff_row_idxs)
     obs = []
@@ -54,11 +56,11 @@ def tp_obs(eng, part, eff=None):
         exp_t, got_t, exp_p, got_p = [], [], [], []
         for i in rows:
             for b in cols:
-                va = C.div(P[i, a] * (1 - P[i, a]), nb[a])
-                vb = C.div(P[i, b] * (1 - P[i, b]), nb[b])
+                va = C.div(P[i, a] * (1 - P[i, a]), nb(i, a))
+                vb = C.div(P[i, b] * (1 - P[i, b]), nb(i, b))
                 exp_t.append(C.div(P[i, b] - P[i, a], C.sqrt(va + vb)))
                 got_t.append(ta[i, b])
-                df = nb[a] + nb[b] - 2
+                df = nb(i, a) + nb(i, b) - 2
                 if eng.symbolic:
                     exp_p.append((1 - inject._TStub.cdf(abs(Q.lift(ta[i, b])), df=df)) * 2)
                 else:
@@ -95,6 +97,36 @@ def tp(eng, squared=False, nr=2, ncols=3):
         m = part.columns_margin
         sb = part.columns_squared_base
         eff = [C.div(m[j] * m[j], sb[j]) for j in range(len(m))]
+    return tp_obs(eng, part, eff)
+
+
+def tp_mr_rows(eng, squared=False):
+    """multiple-response ROWS: every row has its own column bases (selected + not selected answers of the item), also for a
+    subtotal column as the selected or compared column; with squared weights the effective base (sum w)^2 / sum w^2 per cell"""
+    rows = ("mr", "a", 2, {})
+    cols = ("cat", "b", 2, {"missing_at": (0,), "insertions": [S("c12", [1, 2], anchor="top")]})
+    w = CellWorld(eng, [rows, cols], u_concrete=None, u_strict=True, w_strict=True)
+    for idx in np.ndindex(w.shape):
+        w.eng.assume(Q.lift(w.U[idx]) >= 1) if eng.symbolic else None
+    SQ = None
+    if squared:
+        SQ = w.free_measure("weighted_squared_count", "q", lo=None)
+        for idx in np.ndindex(w.shape):
+            if eng.symbolic:
+                eng.assume(Q.lift(SQ[idx]) > 0)
+    part = Cube(w.response()).partitions[0]
+    eff = None
+    if squared:
+        vc = w.valid(1)
+        disp = [list(vc)] + [[k] for k in vc]          # display columns: the subtotal (top), then the base columns
+
+        def eff(i, j):
+            sw = sq = None
+            for k in disp[j]:
+                for plane in (0, 1):
+                    sw = w.W[i, plane, k] if sw is None else sw + w.W[i, plane, k]
+                    sq = SQ[i, plane, k] if sq is None else sq + SQ[i, plane, k]
+            return C.div(sw * sw, sq)
     return tp_obs(eng, part, eff)
 
 
@@ -286,6 +318,8 @@ def specs(tier):
 
     add("t/p unweighted base", "tp", dict())
     add("t/p effective base (squared weights)", "tp", dict(squared=True))
+    add("t/p multiple-response rows (per-row bases), subtotal column", "tp_mr_rows", dict())
+    add("t/p multiple-response rows, effective base (squared weights)", "tp_mr_rows", dict(squared=True))
     add("welch means", "means", dict())
     add("index sets default alpha, only larger", "index_sets", dict())
     add("index sets two alphas, not only larger", "index_sets", dict(alpha=[0.10, 0.05], only_larger=False))
